@@ -6,6 +6,7 @@ package main
 
 import (
 	"fmt"
+	"sort"
 	"strings"
 )
 
@@ -133,6 +134,8 @@ type instantiator struct {
 	lens    []string
 	prime   []string // skolem constants (goal and hypotheses): first in the candidate order
 	variants []string // skolem +-1, skolem - length: last in the candidate order
+	refCands []string // object references (for binders over pointers)
+	refPrime []string // skolem constants of object binders
 }
 
 // order fixes the final candidate order: skolems, then the path's index terms, then variants.
@@ -190,7 +193,7 @@ func (in *instantiator) collect(f *sx, guards []string) {
 			return
 		}
 		names, ok := intBinders(f.list[1])
-		if !ok || len(names) > 2 || len(in.cands) == 0 {
+		if !ok || len(names) > 2 || (len(in.cands) == 0 && len(in.refCands) == 0) {
 			return
 		}
 		body := stripBang(f.list[2])
@@ -209,10 +212,19 @@ func (in *instantiator) collect(f *sx, guards []string) {
 			}
 		}
 		if len(names) == 1 {
-			for _, c := range in.cands {
+			cs := in.cands
+			if strings.HasPrefix(names[0], "q!ref.") {
+				cs = in.refCands
+			}
+			for _, c := range cs {
 				emit(map[string]string{names[0]: c})
 			}
 		} else {
+			for _, n := range names {
+				if strings.HasPrefix(n, "q!ref.") {
+					return // mixed or multiple object binders: left to the solver
+				}
+			}
 			cs := in.cands
 			if len(cs) > in.max2 {
 				cs = cs[:in.max2]
@@ -255,10 +267,14 @@ func (in *instantiator) skolemize(f *sx) *sx {
 				in.newDecl = append(in.newDecl, fmt.Sprintf("(declare-fun %s () %s)", name, b.list[1].String()))
 				m[b.list[0].atom] = name
 				if b.list[1].isAtom() && b.list[1].atom == "Int" {
-					in.prime = append(in.prime, name)
-					in.variants = append(in.variants, "(- "+name+" 1)", "(+ "+name+" 1)")
-					for _, l := range in.lens {
-						in.variants = append(in.variants, "(- "+name+" "+l+")")
+					if strings.HasPrefix(b.list[0].atom, "q!ref.") {
+						in.refPrime = append(in.refPrime, name)
+					} else {
+						in.prime = append(in.prime, name)
+						in.variants = append(in.variants, "(- "+name+" 1)", "(+ "+name+" 1)")
+						for _, l := range in.lens {
+							in.variants = append(in.variants, "(- "+name+" "+l+")")
+						}
 					}
 				}
 			}
@@ -323,7 +339,11 @@ func (in *instantiator) hypSkolem(f *sx, positive bool) (*sx, bool) {
 			in.newDecl = append(in.newDecl, fmt.Sprintf("(declare-fun %s () %s)", name, b.list[1].String()))
 			m[b.list[0].atom] = name
 			if b.list[1].isAtom() && b.list[1].atom == "Int" {
-				in.prime = append(in.prime, name)
+				if strings.HasPrefix(b.list[0].atom, "q!ref.") {
+					in.refPrime = append(in.refPrime, name)
+				} else {
+					in.prime = append(in.prime, name)
+				}
 			}
 		}
 		body, _ := in.hypSkolem(substSx(stripBang(f.list[2]), m), positive)
@@ -387,4 +407,237 @@ func containsQuant(f *sx) bool {
 		}
 	}
 	return false
+}
+
+// ---- syntactic E-matching of pattern axioms (ground phase) ----
+
+type patAxiom struct {
+	vars map[string]bool
+	pat  *sx
+	body *sx
+}
+
+// ematch instantiates axioms of the form (forall (binders) (! body :pattern (pat))) at every
+// ground subterm of text that matches pat (two rounds: the second over the instances of the
+// first). Sound: every instance is implied by its axiom.
+func ematch(axioms []string, text string) []string {
+	var pas []*patAxiom
+	for _, a := range axioms {
+		t, err := parseSx(a)
+		if err != nil || t.head() != "forall" || len(t.list) != 3 {
+			continue
+		}
+		bang := t.list[2]
+		if bang.head() != "!" || len(bang.list) < 4 {
+			continue
+		}
+		pa := &patAxiom{vars: map[string]bool{}, body: bang.list[1]}
+		for _, bnd := range t.list[1].list {
+			if len(bnd.list) == 2 {
+				pa.vars[bnd.list[0].atom] = true
+			}
+		}
+		for i := 2; i+1 < len(bang.list); i++ {
+			if bang.list[i].atom == ":pattern" && len(bang.list[i+1].list) == 1 {
+				pa.pat = bang.list[i+1].list[0]
+			}
+		}
+		if pa.pat != nil && pa.pat.list != nil {
+			pas = append(pas, pa)
+		}
+	}
+	if len(pas) == 0 {
+		return nil
+	}
+	byHead := map[string][]*sx{}
+	seenT := map[string]bool{}
+	var collect func(t *sx, bound map[string]bool)
+	collect = func(t *sx, bound map[string]bool) {
+		if t.list == nil {
+			return
+		}
+		h := t.head()
+		if h == "forall" || h == "exists" {
+			return // terms under a binder may mention bound variables
+		}
+		if h == "let" {
+			return
+		}
+		for _, c := range t.list {
+			collect(c, bound)
+		}
+		if h != "" {
+			k := t.String()
+			if !seenT[k] {
+				seenT[k] = true
+				byHead[h] = append(byHead[h], t)
+			}
+		}
+	}
+	parseAll := func(txt string) {
+		// the text is a sequence of top-level s-expressions
+		depth, start := 0, -1
+		inBar := false
+		for i := 0; i < len(txt); i++ {
+			ch := txt[i]
+			if ch == '|' {
+				inBar = !inBar
+			}
+			if inBar {
+				continue
+			}
+			if ch == '(' {
+				if depth == 0 {
+					start = i
+				}
+				depth++
+			} else if ch == ')' {
+				depth--
+				if depth == 0 && start >= 0 {
+					if t, err := parseSx(txt[start : i+1]); err == nil && t.head() == "assert" && len(t.list) == 2 {
+						collect(t.list[1], nil)
+					}
+					start = -1
+				}
+			}
+		}
+	}
+	parseAll(text)
+	seenI := map[string]bool{}
+	var out []string
+	round := func() []string {
+		var fresh []string
+		for _, pa := range pas {
+			for _, t := range byHead[pa.pat.head()] {
+				m := map[string]string{}
+				if matchSx(pa.pat, t, pa.vars, m) && len(m) == len(pa.vars) {
+					inst := substSx(pa.body, m).String()
+					if !seenI[inst] {
+						seenI[inst] = true
+						fresh = append(fresh, inst)
+					}
+				}
+			}
+		}
+		return fresh
+	}
+	r1 := round()
+	out = append(out, r1...)
+	if len(out) < 20000 {
+		for _, i := range r1 {
+			if t, err := parseSx(i); err == nil {
+				collect(t, nil)
+			}
+		}
+		out = append(out, round()...)
+	}
+	return out
+}
+
+func matchSx(p, t *sx, vars map[string]bool, m map[string]string) bool {
+	if p.list == nil {
+		if vars[p.atom] {
+			ts := t.String()
+			if old, ok := m[p.atom]; ok {
+				return old == ts
+			}
+			m[p.atom] = ts
+			return true
+		}
+		return t.list == nil && t.atom == p.atom
+	}
+	if t.list == nil || len(t.list) != len(p.list) {
+		return false
+	}
+	for i := range p.list {
+		if !matchSx(p.list[i], t.list[i], vars, m) {
+			return false
+		}
+	}
+	return true
+}
+
+// newIndexTerms returns index terms X occurring as (+ (soff S) X) in the given instances that are
+// not candidates yet (at most max of them, shortest first).
+func newIndexTerms(insts []string, have []string, max int, atoms bool) []string {
+	seen := map[string]bool{}
+	for _, h := range have {
+		seen[h] = true
+	}
+	var found []string
+	var walk func(t *sx)
+	walk = func(t *sx) {
+		if t.list == nil {
+			return
+		}
+		if t.head() == "select" && len(t.list) == 3 && t.list[2].head() == "soff" && atoms && !seen["0"] {
+			seen["0"] = true
+			found = append(found, "0")
+		}
+		if t.head() == "+" && len(t.list) == 3 && t.list[1].head() == "soff" {
+			x := t.list[2].String()
+			if !seen[x] && len(x) < 160 && !strings.Contains(x, "q!") {
+				seen[x] = true
+				found = append(found, x)
+			}
+		}
+		for _, c := range t.list {
+			walk(c)
+		}
+	}
+	for _, i := range insts {
+		if t, err := parseSx(i); err == nil {
+			walk(t)
+		}
+	}
+	sort.SliceStable(found, func(a, b int) bool { return len(found[a]) < len(found[b]) })
+	// numerals and plain constants are rarely useful; prefer compound terms
+	var out []string
+	for _, f := range found {
+		if strings.HasPrefix(f, "(") || atoms {
+			out = append(out, f)
+		}
+	}
+	if len(out) > max {
+		out = out[:max]
+	}
+	return out
+}
+
+// refTerms collects terms of the given formulas that denote objects: parameter / allocation
+// constants and pointer-array reads (select (select E!ptr... b) i), shortest first, at most max.
+func refTerms(fs []string, max int, isInt func(string) bool) []string {
+	seen := map[string]bool{}
+	var out []string
+	var walk func(t *sx)
+	walk = func(t *sx) {
+		if t.list == nil {
+			a := t.atom
+			if (strings.HasPrefix(a, "p.") || strings.HasPrefix(a, "new.") || strings.HasPrefix(a, "fv.") || strings.HasPrefix(a, "sk!q.ref.") || strings.HasPrefix(a, "hs!q.ref.")) && !seen[a] && isInt(a) {
+				seen[a] = true
+				out = append(out, a)
+			}
+			return
+		}
+		if t.head() == "select" && len(t.list) == 3 && t.list[1].head() == "select" && t.list[1].list[1].isAtom() && strings.HasPrefix(t.list[1].list[1].atom, "E!ptr.") {
+			k := t.String()
+			if !seen[k] && len(k) < 400 && !strings.Contains(k, "q!") {
+				seen[k] = true
+				out = append(out, k)
+			}
+		}
+		for _, c := range t.list {
+			walk(c)
+		}
+	}
+	for _, f := range fs {
+		if t, err := parseSx(f); err == nil {
+			walk(t)
+		}
+	}
+	sort.SliceStable(out, func(a, b int) bool { return len(out[a]) < len(out[b]) })
+	if len(out) > max {
+		out = out[:max]
+	}
+	return out
 }
